@@ -18,7 +18,7 @@
 (*   exit / oog / err   how the top-level run ended                        *)
 (*   trunc  the harness cut the run short (phi guard), nothing to check    *)
 (***************************************************************************)
-EXTENDS VmExec, Json, IOUtils, TLC
+EXTENDS VmExec, ErrKinds, Json, IOUtils, TLC
 
 Rec == ndJsonDeserialize(IOEnv.TRACE)
 
@@ -27,16 +27,17 @@ VARIABLES l,      \* next line to consume
           run,    \* the current run's constants
           vm,     \* machine currently being stepped (top-level VM or a child)
           gas,    \* gas spent by that machine
-          par     \* while inside a Compute: the suspended parent and the join accumulator
+          par,    \* while inside a Compute: the suspended parent and the join accumulator
+          errc    \* <<op name, error class of the specification>> of the step that failed the top-level run
 
-vars == <<l, mode, run, vm, gas, par>>
+vars == <<l, mode, run, vm, gas, par, errc>>
 
 NoRun == [plen |-> 0]
 NoVm  == [pc |-> 0, st |-> <<>>, mem |-> <<>>, pm |-> <<>>, rep |-> <<>>, halt |-> FALSE]
 NoPar == [on |-> FALSE]
 
 TraceInit ==
-  /\ l = 1 /\ mode = "idle" /\ run = NoRun /\ vm = NoVm /\ gas = 0 /\ par = NoPar
+  /\ l = 1 /\ mode = "idle" /\ run = NoRun /\ vm = NoVm /\ gas = 0 /\ par = NoPar /\ errc = <<>>
 
 -----------------------------------------------------------------------------
 Has(e, f) == f \in DOMAIN e
@@ -90,6 +91,7 @@ NewRun(e) ==
   /\ vm' = e.vm
   /\ gas' = 0
   /\ par' = NoPar
+  /\ errc' = <<>>
 
 \* Preconditions of compute.rs before any child is spawned
 ForkOKvm(v) == /\ Len(v.st) >= 1
@@ -120,10 +122,11 @@ StepEv(e) ==
              /\ vm' = AfterCtl(vm, r)
              /\ mode' = IF Stops(r) THEN (IF mode = "run" THEN "done" ELSE "kiddone") ELSE mode
              /\ par' = par
+             /\ errc' = errc
         ELSE /\ r.k = "err"
              /\ vm' = vm
-             /\ IF mode = "run" THEN mode' = "failed" /\ par' = par
-                ELSE mode' = "forked" /\ par' = [par EXCEPT !.failed = TRUE]
+             /\ IF mode = "run" THEN mode' = "failed" /\ par' = par /\ errc' = <<op.n, r.c>>
+                ELSE mode' = "forked" /\ par' = [par EXCEPT !.failed = TRUE] /\ errc' = errc
   /\ UNCHANGED run
 
 \* The current (top-level) machine charges a Compute and suspends
@@ -137,10 +140,10 @@ ForkEv(e) ==
      /\ ChargeOk(gas, c, run.limit)
      /\ e.g = gas + c
      /\ gas' = gas + c
-  /\ par' = [on |-> TRUE, vm |-> vm, g |-> gas + CostOf("COM"), next |-> 0, cur |-> 0, skipped |-> FALSE, failed |-> FALSE,
+  /\ par' = [on |-> TRUE, vm |-> vm, g |-> gas + CostOf("COM"), next |-> 0, cur |-> 0, skipped |-> FALSE, failed |-> FALSE, gasov |-> FALSE,
              acc |-> [mem |-> <<>>, pc |-> vm.pc, gas |-> 0, halt |-> vm.halt]]
   /\ mode' = "forked"
-  /\ UNCHANGED <<run, vm>>
+  /\ UNCHANGED <<run, vm, errc>>
 
 Breadth(p)  == p.vm.st[Len(p.vm.st)]
 ForkOK(p)   == ForkOKvm(p.vm)
@@ -155,7 +158,7 @@ ChildStart(e) ==
   /\ gas' = 0                     \* as coded: every child starts from zero (finding F9)
   /\ par' = [par EXCEPT !.cur = e.i, !.skipped = par.skipped \/ e.i > par.next]
   /\ mode' = "kid"
-  /\ UNCHANGED run
+  /\ UNCHANGED <<run, errc>>
 
 ChildExit(e) ==
   /\ e.e = "cexit"
@@ -165,12 +168,12 @@ ChildExit(e) ==
   /\ e.g = gas
   /\ ProjOK(e, vm)
   /\ par' = [par EXCEPT !.next = par.cur + 1,
-                        !.failed = par.failed \/ par.acc.gas + gas > GasMax,
+                        !.gasov = par.gasov \/ par.acc.gas + gas > GasMax,
                         !.acc = [mem |-> par.acc.mem \o vm.mem, pc |-> Max(par.acc.pc, vm.pc),
                                  gas |-> IF par.acc.gas + gas > GasMax THEN GasMax ELSE par.acc.gas + gas,
                                  halt |-> par.acc.halt \/ vm.halt]]
   /\ mode' = "forked"
-  /\ UNCHANGED <<run, vm, gas>>
+  /\ UNCHANGED <<run, vm, gas, errc>>
 
 ChildOutOfGas(e) ==
   /\ e.e = "coog"
@@ -179,16 +182,31 @@ ChildOutOfGas(e) ==
   /\ ~ChargeOk(gas, CostOf(run.prog[vm.pc + 1].n), run.limit)
   /\ par' = [par EXCEPT !.failed = TRUE]
   /\ mode' = "forked"
-  /\ UNCHANGED <<run, vm, gas>>
+  /\ UNCHANGED <<run, vm, gas, errc>>
+
+\* why compute.rs fails, in the order of its checks
+JoinErr(p) ==
+  IF Len(p.vm.st) < 1 THEN "stack empty"
+  ELSE IF Breadth(p) < 1 THEN "breadth"
+  ELSE IF Len(p.vm.pm) >= MaxDepth THEN "depth"
+  ELSE IF p.failed THEN "child"                     \* a child failed or ran out of gas
+  ELSE IF Len(p.vm.mem) + Len(p.acc.mem) > MemLimit THEN "memory overflow"
+  ELSE "gas overflow"                               \* the children's gas does not sum
 
 JoinEv(e) ==
   /\ e.e = "join"
   /\ mode = "forked"
   /\ LET p == par
          \* compute.rs: all children returned Ok, their memories fit, their gas sums without overflow
+         allSeen == Len(p.vm.st) >= 1 /\ ~p.skipped /\ p.next = Breadth(p)
          kidsOK == /\ ForkOK(p)
-                   /\ ~p.failed /\ ~p.skipped /\ p.next = Breadth(p)
+                   /\ ~p.failed /\ ~p.gasov /\ allSeen
                    /\ Len(p.vm.mem) + Len(p.acc.mem) <= MemLimit
+         \* a failing Compute needs a reason: a precondition, a child that was seen to fail, or
+         \* - every child having been seen to succeed - memories or gas that do not add up
+         whyFail == \/ ~ForkOK(p)
+                    \/ p.failed
+                    \/ allSeen /\ (p.gasov \/ Len(p.vm.mem) + Len(p.acc.mem) > MemLimit)
          \* vm.rs: the children's gas is then added with an overflow check and counts towards the limit
          gasOK == p.g + p.acc.gas <= GasMax /\ p.g + p.acc.gas <= run.limit
          after == [p.vm EXCEPT !.st = DropLast(p.vm.st, 1), !.mem = p.vm.mem \o p.acc.mem,
@@ -208,9 +226,10 @@ JoinEv(e) ==
                   /\ vm' = after
                   /\ gas' = p.g
                   /\ mode' = "joinoog"
-     ELSE /\ ~kidsOK
+     ELSE /\ whyFail = TRUE       \* (as an expression: TLC would otherwise explore each disjunct)
           /\ vm' = p.vm /\ gas' = p.g
           /\ mode' = "failed"
+  /\ errc' = IF e.ok THEN errc ELSE <<"COM", JoinErr(par)>>
   /\ par' = NoPar
   /\ UNCHANGED run
 
@@ -224,7 +243,7 @@ ExitEv(e) ==
   /\ ProjOK(e, vm)
   /\ e.pm = vm.pm
   /\ mode' = "exited"
-  /\ UNCHANGED <<run, vm, gas, par>>
+  /\ UNCHANGED <<run, vm, gas, par, errc>>
 
 \* Vm::eval: the boolean extracted from the final stack (C09)
 EvalEv(e) ==
@@ -233,7 +252,7 @@ EvalEv(e) ==
   /\ LET top == IF vm.st = <<>> THEN -1 ELSE vm.st[Len(vm.st)] IN
      e.r = (IF vm.st # <<>> /\ top = 1 THEN "t" ELSE IF vm.st # <<>> /\ top = 0 THEN "f" ELSE "inv")
   /\ mode' = "idle"
-  /\ UNCHANGED <<run, vm, gas, par>>
+  /\ UNCHANGED <<run, vm, gas, par, errc>>
 
 OutOfGasEv(e) ==
   /\ e.e = "oog"
@@ -244,19 +263,20 @@ OutOfGasEv(e) ==
   /\ e.pc = vm.pc
   /\ ProjOK(e, vm)               \* nothing (else) happened
   /\ mode' = "idle"
-  /\ UNCHANGED <<run, vm, gas, par>>
+  /\ UNCHANGED <<run, vm, gas, par, errc>>
 
 ErrEv(e) ==
   /\ e.e = "err"
   /\ mode = "failed"
   /\ e.pc = Clamp(vm.pc)
+  /\ KindOK(errc[1], errc[2], e.class)          \* the kind of typed error (ErrKinds.tla)
   /\ mode' = "idle"
-  /\ UNCHANGED <<run, vm, gas, par>>
+  /\ UNCHANGED <<run, vm, gas, par, errc>>
 
 TruncEv(e) ==
   /\ e.e = "trunc"
   /\ mode' = "idle"
-  /\ UNCHANGED <<run, vm, gas, par>>
+  /\ UNCHANGED <<run, vm, gas, par, errc>>
 
 TraceNext ==
   /\ l <= Len(Rec)
